@@ -1,7 +1,10 @@
-(* C03: property theorems (statements proved so far; see bin/propcfg/C03.py for the status). *)
-From Coq Require Import List ZArith Bool Permutation.
-From DD Require Import Model.Circuit Model.Query Proofs.Semantics Proofs.CountsA Proofs.QueryDefs.
+(* C03: the SAT propagation of anomalies/sat.rs (Model/Query.v sat, sat_propagate).
+   Property theorems only; proofs in Proofs/C03Proof.v, status in bin/propcfg/C03.py. *)
+From Coq Require Import List ZArith Bool Permutation Lia.
+From DD Require Import Model.Circuit Model.Query Proofs.Semantics Proofs.CountsA Proofs.QueryDefs
+  Proofs.C03Proof Props.C01.
 Import ListNotations.
+Open Scope Z_scope.
 
 (* The specification-level count with the complementary leaves zeroed is the number of models
    that contain all assumed literals (every WF circuit, every in-range assumption list,
@@ -10,3 +13,116 @@ Theorem C03_countsA_is_MCA : forall C n A,
   WF C n -> in_range n A -> nth (root C) (countsA A C) 0 = MCA C n A.
 Proof. exact countsA_MCA. Qed.
 Print Assumptions C03_countsA_is_MCA.
+
+(* `sat` (fresh mark vector, root_index None) answers true exactly when some model of the formula
+   contains all literals of the query (duplicates, contradictory literals, core/dead literals
+   included). *)
+Theorem C03_sat_correct : forall C n A,
+  WFQ C n -> 0 < root_count C -> in_range n A ->
+  sat (build C n) A = (0 <? MCA C n A).
+Proof. exact sat_correct. Qed.
+Print Assumptions C03_sat_correct.
+
+(* Decision propagation: calls of sat_propagate sharing one mark vector (sat_chain, defined in
+   Proofs/C03Proof.v: answers of the calls in order, each call continuing on the vector the
+   previous one left).  While every earlier answer was `true`, the k-th answer is the
+   satisfiability of everything asserted so far. *)
+Theorem C03_sat_incremental : forall C n (As : list cfg),
+  WFQ C n -> 0 < root_count C -> Forall (in_range n) As ->
+  let answers := sat_chain (build C n) As (map (fun _ => false) C) in
+  forall k, (k < length As)%nat ->
+    (forall j, (j < k)%nat -> nth j answers false = true) ->
+    nth k answers false = (0 <? MCA C n (concat (firstn (S k) As))).
+Proof. exact sat_incremental. Qed.
+Print Assumptions C03_sat_incremental.
+
+(* Stronger: only an earlier call that was cut short by the core test (makes_query_unsat) breaks
+   the chain; an earlier `false` found by the propagation itself does not (the root stays marked). *)
+Theorem C03_sat_incremental_strong : forall C n (As : list cfg),
+  WFQ C n -> 0 < root_count C -> Forall (in_range n) As ->
+  let answers := sat_chain (build C n) As (map (fun _ => false) C) in
+  forall k, (k < length As)%nat ->
+    (forall j, (j < k)%nat -> existsb (makes_unsat (build C n)) (nth j As []) = false) ->
+    nth k answers false = (0 <? MCA C n (concat (firstn (S k) As))).
+Proof. exact sat_incremental_strong. Qed.
+Print Assumptions C03_sat_incremental_strong.
+
+(* The proviso is needed: after a call answered by the core test the vector does not know the
+   literals of that call, and a later call is answered `true` although the accumulated
+   configuration has no model (and a fresh `sat` on it says false). *)
+Theorem C03_sat_incremental_proviso_needed : exists C n (As : list cfg) k,
+  WFQ C n /\ 0 < root_count C /\ Forall (in_range n) As /\ (k < length As)%nat /\
+  let answers := sat_chain (build C n) As (map (fun _ => false) C) in
+  (exists j, (j < k)%nat /\ nth j answers false = false) /\
+  nth k answers false = true /\
+  sat (build C n) (concat (firstn (S k) As)) = false /\
+  MCA C n (concat (firstn (S k) As)) = 0.
+Proof. exact sat_incremental_proviso_needed. Qed.
+Print Assumptions C03_sat_incremental_proviso_needed.
+
+(* Sub-root variant (sat_wrapper.rs is_sat_in_subgraph_cached): root_index = Some r for a node r
+   whose cached count is positive.  The answer is: no literal is refuted by the core test, and the
+   sub-circuit below r keeps a positive count under all literals asserted so far. *)
+Theorem C03_sat_subroot : forall C n A r,
+  WFQ C n -> (r < length C)%nat -> 0 < nth r (counts C) 0 ->
+  snd (sat_propagate (build C n) A (map (fun _ => false) C) (Some r)) =
+  negb (existsb (makes_unsat (build C n)) A) && (0 <? nth r (countsA A C) 0).
+Proof. exact sat_subroot. Qed.
+Print Assumptions C03_sat_subroot.
+
+Theorem C03_sat_subroot_incremental : forall C n (Qs : list (cfg * option nat)),
+  WFQ C n -> Forall (fun q => live_root C (snd q)) Qs ->
+  let answers := sat_chain_sub (build C n) Qs (map (fun _ => false) C) in
+  forall k, (k < length Qs)%nat ->
+    (forall j, (j < k)%nat -> nth j answers false = true) ->
+    nth k answers false =
+    negb (existsb (makes_unsat (build C n)) (fst (nth k Qs ([], None)))) &&
+    (0 <? nth (root_of C (snd (nth k Qs ([], None))))
+              (countsA (concat (map fst (firstn (S k) Qs))) C) 0).
+Proof. exact sat_subroot_incremental. Qed.
+Print Assumptions C03_sat_subroot_incremental.
+
+(* With sub-roots an earlier `false` found by the propagation breaks the chain as well (the loop
+   returns as soon as ITS root is marked; the remaining literals are never propagated), and the
+   core test is a genuine part of the answer. *)
+Theorem C03_sat_subroot_proviso_needed : exists C n (Qs : list (cfg * option nat)) k,
+  WFQ C n /\ Forall (fun q => live_root C (snd q)) Qs /\ (k < length Qs)%nat /\
+  let answers := sat_chain_sub (build C n) Qs (map (fun _ => false) C) in
+  (exists j, (j < k)%nat /\ nth j answers false = false) /\
+  existsb (makes_unsat (build C n)) (concat (map fst Qs)) = false /\
+  nth k answers false = true /\
+  nth (root_of C (snd (nth k Qs ([], None)))) (countsA (concat (map fst (firstn (S k) Qs))) C) 0 = 0.
+Proof. exact sat_subroot_proviso_needed. Qed.
+Print Assumptions C03_sat_subroot_proviso_needed.
+
+Theorem C03_sat_subroot_core_guard_needed : exists C n A r,
+  WFQ C n /\ (r < length C)%nat /\ 0 < nth r (counts C) 0 /\ in_range n A /\
+  snd (sat_propagate (build C n) A (map (fun _ => false) C) (Some r)) = false /\
+  0 < nth r (countsA A C) 0.
+Proof. exact sat_subroot_core_guard_needed. Qed.
+Print Assumptions C03_sat_subroot_core_guard_needed.
+
+(* Non-vacuity: the hypotheses hold for x1 <-> x2 (Props/C01.v ex_iff) and for x1 /\ (x2 \/ -x2)
+   (ex_core, feature 1 core), and both answers occur. *)
+Example ex_iff_wfq : WFQ ex_iff 2 /\ 0 < root_count ex_iff /\ ex_iff = ex_iff'.
+Proof. split; [apply check_wf_WFQ; vm_compute; reflexivity|split; vm_compute; reflexivity]. Qed.
+Example ex_iff_in_range : in_range 2 [1; -2] /\ Forall (in_range 2) [[1]; [2]; [-1]].
+Proof.
+  assert (H : forall A, forallb (fun l => (1 <=? Z.abs l) && (Z.abs l <=? 2)) A = true -> in_range 2 A).
+  { intros A HA l Hl. rewrite forallb_forall in HA. specialize (HA l Hl). cbn in *. lia. }
+  split; [|constructor; [|constructor; [|constructor; [|constructor]]]]; apply H; reflexivity.
+Qed.
+Example ex_iff_sat :
+  sat (build ex_iff 2) [1; 2] = true /\ sat (build ex_iff 2) [1; -2] = false /\
+  MCA ex_iff 2 [1; 2] = 1 /\ MCA ex_iff 2 [1; -2] = 0.
+Proof. repeat split; vm_compute; reflexivity. Qed.
+Example ex_iff_chain :
+  sat_chain (build ex_iff 2) [[1]; [2]; [-1]] (map (fun _ => false) ex_iff) = [true; true; false].
+Proof. vm_compute. reflexivity. Qed.
+Example ex_iff_subroot : live_root ex_iff (Some 4%nat) /\
+  snd (sat_propagate (build ex_iff 2) [1] (map (fun _ => false) ex_iff) (Some 4%nat)) = true /\
+  snd (sat_propagate (build ex_iff 2) [-1] (map (fun _ => false) ex_iff) (Some 4%nat)) = false.
+Proof. repeat split; vm_compute; reflexivity || lia. Qed.
+Example ex_core_core : WFQ ex_core 2 /\ 0 < root_count ex_core /\ core (build ex_core 2) = [1] /\
+  sat (build ex_core 2) [-1] = false /\ sat (build ex_core 2) [1; -2] = true.
+Proof. split; [apply check_wf_WFQ; vm_compute; reflexivity|repeat split; vm_compute; reflexivity]. Qed.
